@@ -309,14 +309,16 @@ pub fn finish(ctx: &Ctx, rep: Report) -> i32 {
         new_viol,
         known_hit
     );
-    if !machinery.is_empty() {
-        for m in machinery.iter().take(5) {
-            eprintln!("MACHINERY ERROR: {}", m);
-        }
-        return 2;
+    for m in machinery.iter().take(5) {
+        eprintln!("MACHINERY ERROR: {}", m);
     }
+    // a violation is a recorded execution of the real program that replays on its own: it stands whatever happened
+    // to other executions of the same run; without one, an engine error means the run decided nothing
     if new_viol > 0 {
         return 1;
+    }
+    if !machinery.is_empty() {
+        return 2;
     }
     0
 }
